@@ -48,11 +48,13 @@ def attempts(rng, mirror: E.Mirror, world: E.World):
         for _ in range(4):
             off = rng.choice(attached)
             tgt = rng.choice([n for g, p, n in nodes])
-            k = rng.choice(["add_following", "add_preceding", "append", "insert", "replace", "setitem0"])
+            k = rng.choice(["add_following", "add_preceding", "append", "insert", "replace", "setitem0", "setitem_in", "setitem_in"])
             tp = mirror.find(E.tid(tgt))[1]
             if k in ("add_following", "add_preceding", "replace") and not tp:
                 continue
-            if k in ("append", "insert", "setitem0") and tgt[0] != "t":
+            if k in ("append", "insert", "setitem0", "setitem_in") and tgt[0] != "t":
+                continue
+            if k == "setitem_in" and not tgt[5]:
                 continue
             if k == "setitem0" and tgt[5]:
                 continue
@@ -62,6 +64,12 @@ def attempts(rng, mirror: E.Mirror, world: E.World):
                  "ambient": rng.choice(["none", "default"])}
             if k == "insert":
                 c["index"] = rng.randint(0, len(tgt[5]))
+            if k == "setitem_in":
+                # item assignment at an existing position: the offered node is attached elsewhere or is that very child
+                c["index"] = rng.randrange(len(tgt[5]))
+                if rng.random() < 0.25:
+                    c["offered"] = E.tid(tgt[5][c["index"]])
+                c["child"] = E.tid(tgt[5][c["index"]])
             if c["ambient"] == "default" and k != "append":
                 # under default filters index/sibling arguments address visible nodes only; keep to append
                 c["ambient"] = "none"
@@ -130,7 +138,7 @@ def call(world: E.World, a):
                 t.insert_children(a["index"], offered())
             elif op == "replace":
                 t.replace_with(offered())
-            elif op in ("setitem", "setitem0"):
+            elif op in ("setitem", "setitem0", "setitem_in"):
                 t[a.get("index", 0)] = offered()
             elif op == "delitem":
                 del t[a["index"]]
@@ -291,6 +299,8 @@ def guard_request(mirror: E.Mirror, a):
         c = {"op": "pi_target", "s": a["s"]}
     elif c["op"] == "setitem0":
         c["op"] = "append"  # the property demands the attachment check here as well
+    elif c["op"] == "setitem_in":
+        c = {"why": c["why"], "op": "replace", "target": c["child"], "offered": c["offered"]}  # node[i] = x is node[i].replace_with(x)
     return {"cmd": "guard", "groups": [t for t in mirror.groups if t is not None], "doc_root": E.tid(mirror.groups[0]), "call": c}
 
 
